@@ -733,6 +733,140 @@ def rule_P1e(ck, rule="P1e"):
                         show(stride)[:200], show(extent)[:200], show(bad)[:200], tu.pl.sea), config=tu.cfg)
 
 
+def ctor_request(tu):
+    """byte count the sized constructor requests for the data block (a term over its arguments n, bytes, f_i)"""
+    csm = tu.S("w_ctor")
+    cbegin = tu.obs("w_ctor", "post", "begin")
+    from .rules_own import alloc_leaves
+    lv = alloc_leaves(cbegin) or ()
+    cal = [e for e in csm.events if e.kind == "ALLOC" and e.res.single_atom() in lv]
+    if len(cal) == 1:
+        return cal[0].args[1]
+    if len(cal) == 2:
+        return mk_gamma(cal[0].guard, cal[0].args[1], cal[1].args[1])
+    raise AnalysisBroken("%s: constructor's data-block allocation not found" % tu.cfg)
+
+
+def rule_fit(ck, rule="FIT"):
+    """varying-size lists: 'N elements whose payloads total at most B bytes fit into a vector constructed for (N, B)'.
+    Decided as an induction over the appended elements with two per-element obligations, both on the summary of
+    emplace_back for a symbolic element appended at a storage-aligned position:
+      T(n, b)  a lower bound of the constructor's request that is linear for n >= 1:  T = T1 + (n-1)*S + b
+      FIT-next   AlignUp(extent, storage alignment) <= S + payload     (where the next element can start)
+      FIT-last   extent <= T1 + payload                                 (the last element)
+    Then the k-th element starts at most at (k-1)*S + (payload of its predecessors) and the n-th ends at most at
+    T(n, total payload) <= T(n, B) <= the block."""
+    tu, rec = ck.tu, ck.rec
+    if tu.pl.all_fixed_locator or not tu.has("w_ctor") or not tu.has("w_emplace_back_new"):
+        return
+    from .terms import mk_mul, mk_bin
+    sea = tu.pl.sea
+    csm = tu.S("w_ctor")
+    cps = tu.meta["w_ctor"]["params"]
+    request = ctor_request(tu)
+    an, ab = ("arg", cps.index("n")), ("arg", cps.index("bytes"))
+
+    def inst(t, n, b):
+        return csm.interp.subst_atoms(t, {an: n, ab: b})
+
+    # candidates for T: the request itself, and the operands the request rounds up to whole storage units
+    cands = [request]
+    if sea > 1:
+        seen = []
+
+        def visit(a):
+            if a[0] in ("lshr", "and", "alignup") and isinstance(a[1], Lin) and not a[1].is_const() and a[1] not in seen:
+                seen.append(a[1])
+
+        walk_atoms(request, visit)
+        cands = seen + cands
+    n, b = atom(an), atom(ab)
+    chosen = None
+    why = []
+    for T in cands:
+        if not (_mentions(T, an) and _mentions(T, ab)):
+            continue
+        # the block is at least T bytes
+        ok = True
+        for f in case_split([request, T], Facts([c_cmp("ult", ZERO, n)]), max_cases=16):
+            if f.infeasible():
+                continue
+            if not f.nonneg(simplify(request - T, f)):
+                ok = False
+                break
+        if not ok:
+            why.append("request >= %s not provable" % show(T)[:80])
+            continue
+        T1 = simplify(inst(T, const(1), ZERO), Facts())
+        S = simplify(inst(T, const(2), ZERO), Facts()) - T1
+        lin = T1 + mk_mul(n - 1, S) + b
+        f1 = Facts([c_cmp("ult", ZERO, n)])
+        good = True
+        for f in case_split([T], f1, max_cases=16):
+            if f.infeasible():
+                continue
+            if not f.is_zero(simplify(T - lin, f)):
+                good = False
+                break
+        if not good:
+            why.append("%s is not linear in n and bytes" % show(T)[:80])
+            continue
+        chosen = (T, T1, S)
+        break
+    if chosen is None:
+        rec.broken("%s %s: no linear lower bound of the constructor's request found (%s)" % (tu.cfg, rule, "; ".join(why)[:300]))
+        return
+    T, T1, S = chosen
+    fn = "w_emplace_back_new"
+    sm = tu.S(fn)
+    ps = tu.meta[fn]["params"]
+    fsat = _fs_atoms(tu, fn, "v")
+    sub = {("arg", cps.index("f%d" % i)): fsat[i] for i in range(tu.pl.nfixed)}
+    T1e, Se = csm.interp.subst_atoms(T1, sub), csm.interp.subst_atoms(S, sub)
+    payload = ZERO
+    for i, p_ in enumerate(tu.pl.params):
+        if p_.kind == "V":
+            payload = payload + atom(("arg", ps.index("n%d" % (i - 1)))).scale(p_.size)
+    fm = FieldMap(tu)
+    base = witness_facts(tu, fn, fm)
+    pre_end = tu.obs(fn, "pre", "end")
+    ext = tu.obs(fn, "post", "end") - pre_end
+    if has_unknown(ext):
+        rec.broken("%s %s: extent of the appended element undecided: %s" % (tu.cfg, rule, show(ext)[:200]))
+        return
+    results = {}
+    bad = {}
+    for f0 in case_split([ext], base, max_cases=32):
+        f = f0.copy()
+        f.add_cong(pre_end, sea)
+        if f.infeasible():
+            continue
+        e2 = simplify(ext, f)
+        for name, lhs, rhs in (("next", simplify(mk_alignup(e2, sea), f), Se + payload), ("last", e2, T1e + payload)):
+            d = simplify(rhs - lhs, f)
+            ok = (d.is_const() and d.c >= 0) or f.nonneg(d)
+            results[name] = results.get(name, True) and ok
+            if not ok and name not in bad:
+                bad[name] = (d, lhs, rhs)
+    for name in ("next", "last"):
+        if name not in results:
+            rec.broken("%s %s: no feasible case for the appended element" % (tu.cfg, rule))
+            return
+        d_l_r = bad.get(name)
+        if d_l_r is not None and (has_unknown(d_l_r[0]) or fm_imprecise(d_l_r[0])):
+            rec.broken("%s %s-%s: undecided: %s" % (tu.cfg, rule, name, show(d_l_r[0])[:200]))
+            continue
+        rec.ob("%s-%s" % (rule, name), results[name], {"config": tu.cfg, "witness": fn, "per_element_budget": show(Se)[:160], "first_element_budget": show(T1e)[:160],
+                                                     "extent": show(ext)[:200], "payload": show(payload)})
+        if not results[name]:
+            d, lhs, rhs = d_l_r
+            rec.finding("%s-%s" % (rule, name), "element-exceeds-budget[%s:%s]" % (tu.pl.name, ck.catkey()),
+                        "an appended element with varying payload %s occupies %s bytes (%s) but the constructor budgets only %s for it: "
+                        "N elements within the declared payload do not always fit (budget - need = %s)" % (
+                            show(payload), show(lhs)[:200], "rounded up to where the next element starts" if name == "next" else "as the last element",
+                            show(rhs)[:200], show(d)[:200]), config=tu.cfg, witness=fn)
+
+
 def rule_stride_inv(ck, rule="INV-S"):
     """all-fixed vectors: in every state produced by a constructor or a mutator the element stride is the
     constructor's stride formula of that state's fixed sizes (given that it was in the operand states).
